@@ -3,7 +3,7 @@ CONSTANTS
   MaxBatch = 2
   MaxSegs = 3
   MaxMergeIn = 2
-  Docs = {1, 2, 3, 4, 5}
+  Docs = {1, 2, 3, 4, 9}
   Modes = {1, 1026}
   Emit = TRUE
 VIEW View
